@@ -727,6 +727,66 @@ def run_cg(run, cfg, G):
                        "heck itself compared with the model's port on every name of length <= 5 over {a,B,2,_} and the corpus' name pools; non-trivial = by line kind; distinct = distinct case lines" % n)
 
 
+def intro_decl_has_documented_variant(line):
+    """does the module of this case line declare an enum (custom or inline) with a documented variant?"""
+    t = line.split(" => ")[0].split()
+    t = t[3:] if t[0] in ("intro", "intrort") else t[1:]
+    try:
+        n = int(t[0]); i = 1
+        for _ in range(n):
+            k = t[i]
+            if k in ("ts", "cs"):
+                i += 4 + 3 * int(t[i + 3])
+            elif k in ("te", "ce"):
+                nv = int(t[i + 3])
+                if any(t[i + 4 + 2 * j + 1] != "-" for j in range(nv)):
+                    return True
+                i += 4 + 2 * nv
+            else:
+                nv = int(t[i + 2]); i += 3
+                for _ in range(nv):
+                    sh = t[i + 2]; i += 3
+                    if sh == "n":
+                        i += 1 + 3 * int(t[i])
+                    elif sh == "t":
+                        i += 1
+    except (ValueError, IndexError):
+        return False
+    return False
+
+
+def intro_known_key(line):
+    if line.startswith("intrort ") and intro_decl_has_documented_variant(line):
+        return "documented-enum-variant"
+    return None
+
+
+def intro_nontrivial(inp, impl):
+    k = inp.split()[0]
+    ks = [k]
+    if "(" in inp:
+        ks.append("constructor-type")
+    if "@" in inp:
+        ks.append("reference-to-earlier-type")
+    if " er " in inp:
+        ks.append("error-enum")
+    if "&str" in inp or "&[]" in inp:
+        ks.append("lifetime")
+    return ks
+
+
+def run_intro(run, cfg, G):
+    for pre in ("introty", "intro", "intrort"):
+        diff_run(run, G, ["intro"], pre, intro_nontrivial, "intro-" + pre, known_key=intro_known_key)
+    finish_corr(run, G, [])
+    n = corpus_sizes(run)["intro"]
+    run.cov["programs"] = n
+    run.cov["rule"] = ("a corpus of %d modules generated from the seed, each declaring 2..5 Rust types: structs and unit-variant enums with #[derive(Type)] or #[derive(CustomType)], error enums with the introspection #[derive(ReplyError)] (unit, struct and single-tuple variants), "
+                       "0..6 fields drawn from every std type the Type trait is implemented for (10 integer types, floats, strings, char, unit, serde_json::Value, time / path / OS-string / network types), every wrapper and collection constructor (nested up to depth 3), earlier types of the module, with and without lifetimes, "
+                       "doc comments (with leading / trailing / inner blanks, non-ASCII) on types, fields and variants; compiled against /repo's macros on every run; observed: <T as Type>::TYPE of every type, the interface assembled from all CUSTOM_TYPEs and VARIANTS, its Display text and what that text parses back to; "
+                       "non-trivial = by line kind and features; distinct = distinct case lines" % n)
+
+
 RX_ASSUME = [
     "which bytes are a JSON document of the requested shape is serde_json/serde's business: the model takes `decode this frame` as an opaque per-frame function (theorems hold for every such function); the harness instantiates it with the verdict of a fresh connection receiving that frame alone and cross-checks call receivers against serde_json::from_slice",
     "the ReadHalf contract: a read future that is dropped while pending has consumed nothing",
@@ -817,6 +877,19 @@ PROPS = {
             "inline structs and inline enums are held as serde_json::Value / String by the generated code: their values are not constrained or re-spelled by it (C15_type_table states the widening)",
             "collision-free names: the corpus rejects interfaces whose converted Rust names collide, member names reused across kinds, and custom types named like prelude items",
             "value-level round trips (cgreply / cgtype / cgenc / cgerr) are decided by the oracle on the corpus; the theorems cover names, keys, the parameter object, type shapes, keywords and lifetimes for every interface tree",
+        ],
+    },
+    "C16": {
+        "property_modules": ["Zlink.Properties.C16"], "lean_modules": ["Zlink.Properties.C16"],
+        "theorems": ["C16.C16_atoms", "C16.C16_ctors", "C16.C16_tables_nodup", "C16.C16_type_mapping", "C16.C16_fields_exact",
+                     "C16.C16_field_names", "C16.C16_custom_struct", "C16.C16_enum_variants"],
+        "run": run_intro, "pregen": pregen_corpora, "package": "zvc", "trusted_base": TB_COMMON,
+        "assumptions": [
+            "rustc's trait resolution picks the impl the model looks up by the type's text (constructor name + fixed arguments); observed on the compiled corpus only",
+            "`renders to text that parses back to an equal description` is decided by the Lean oracle on the corpus (parser model of C13 on the implementation's text), not by a theorem: the general render/parse round trip (C14) is still open; the known D9 defect (documented enum variants render to text the parser refuses) is a listed finding",
+            "doc comments: `/// text` lines only (block doc comments span lines and cannot be one IDL comment); the comment is the line without surrounding blanks",
+            "field, variant and type names of the corpus are legal Varlink names (a Rust name such as `_x` or `a__b` has no Varlink spelling; raw identifiers make the derive panic at compile time): outside the property's corpus",
+            "external-crate impls (uuid, url, bytes, indexmap, chrono, time) are feature-gated and not compiled here",
         ],
     },
     "C13": {
